@@ -160,6 +160,10 @@ type WaitGroup struct {
 	mode atomic.Int32 // 0 unset, 1 real, 2 sim
 }
 
+// WGZeroHook, if set by a harness, is called synchronously (by the task whose
+// Done brought the counter to zero) at the instant a wait group is released.
+var WGZeroHook func(w *WaitGroup)
+
 //go:norace
 func (w *WaitGroup) sim() bool {
 	m := w.mode.Load()
@@ -188,6 +192,9 @@ func (w *WaitGroup) Add(d int) {
 		panic("simsync: negative WaitGroup counter")
 	}
 	if n == 0 {
+		if h := WGZeroHook; h != nil {
+			h(w)
+		}
 		simrt.Wake(uintptr(unsafe.Pointer(w)))
 		w.mode.Store(0)
 	}
